@@ -209,6 +209,18 @@ CHECKS['C11'] = dict(
     technique='Lean 4 proof (writer/reader lockstep simulation; trailers = structural recount) + write-history differential and re-read oracle',
     design='DESIGN.md §3 C11')
 
+CHECKS['C09'] = dict(
+    text='Lean model of X12ContextReader.iter_segments / _add_segment over abstract walker answers with theorems, for every Consistent answer '
+         'list and every requested loop id or none: partition (the yielded plain segments and tree segments, concatenated in order, are '
+         'exactly the source segments), tree_is_maximal_instance, plain_is_outside, tree_count, tree_shape_follows_path, positions_carried, '
+         'no_crash. Consistent is an executable predicate evaluated by the driver on every real walker trace. Tied to /repo by real '
+         'iter_segments for no loop id and every segment-anchored loop id of the map on generated documents of all maps (repeated '
+         'interchanges/groups/sets included), compared with the model and with an independent oracle (partition, rooting, instance count, '
+         'nesting = map path, seg_count and line carried).',
+    note=COMMON_NOTE + ' Consistent is checked on real traces, not proved for the Walker model\'s outputs.',
+    technique='Lean 4 proof (yields = plain segments + maximal loop instances for all consistent answer lists) + per-(document, loop id) differential and oracle',
+    design='DESIGN.md §3 C09')
+
 PENDING_REASON = 'check under construction in this session (see DESIGN.md §3); not yet claimed'
 
 
